@@ -31,6 +31,9 @@ fn forced() -> Vec<ANode> {
         e("urn:A", "r").with_decl("", "urn:A").with_children(vec![e("urn:B", "m").with_decl("", "urn:B").with_children(vec![e("", "x").with_decl("", "").with_children(vec![ANode::text("t")])])]),
         // no-namespace element under a default binding (F29)
         e("urn:A", "r").with_decl("", "urn:A").with_children(vec![e("", "x")]),
+        // the xml prefix rebound through the API: the nearest declaration wins for it like for any other prefix
+        e("", "r").with_decl("xml", "urn:A").with_children(vec![e("urn:A", "x").with_attr(QName::new("urn:A", "k"), "v"), e("", "m").with_decl("xml", "urn:B").with_children(vec![e("urn:B", "y")])]),
+        e("", "r").with_children(vec![e("", "m").with_decl("xml", "urn:A").with_decl("p", "urn:A").with_children(vec![e("urn:A", "x")]), e("", "n")]),
         // several prefixes per namespace, several namespaces per prefix along a path
         e("", "r").with_decl("p", "urn:A").with_decl("q", "urn:A").with_children(vec![e("", "m").with_decl("p", "urn:B").with_children(vec![e("urn:A", "x").with_attr(QName::new("urn:A", "k"), "1").with_attr(QName::new("urn:B", "k"), "2")])]),
     ]
@@ -96,7 +99,7 @@ impl<'a> Walk<'a> {
         // namespace_for_prefix for every prefix known
         for p in PREFIX_POOL {
             let pid = self.xot.add_prefix(p);
-            let want: Option<String> = if *p == "xml" { Some(XML_NS.to_string()) } else { scope.lookup(p).map(|s| s.to_string()) };
+            let want: Option<String> = scope.lookup(p).map(|s| s.to_string());
             let x = &*self.xot;
             match guard(|| x.namespace_for_prefix(h, pid).map(|n| x.namespace_str(n).to_string())) {
                 Ok(g) if g == want => self.ctx.count("namespace_for_prefix.checked"),
@@ -134,7 +137,7 @@ impl<'a> Walk<'a> {
         for ns in NS_POOL {
             let nid = self.xot.add_namespace(ns);
             let mut usable: Vec<String> = scope.prefixes_for(ns, true);
-            if *ns == XML_NS {
+            if *ns == XML_NS && scope.lookup("xml") == Some(XML_NS) && !usable.iter().any(|p| p == "xml") {
                 usable.push("xml".to_string());
             }
             let x = &*self.xot;
@@ -175,7 +178,7 @@ impl<'a> Walk<'a> {
         }
         let usable: Vec<String> = if name.ns.is_empty() {
             if is_attr || scope.lookup("").is_none() { vec![String::new()] } else { vec![] }
-        } else if name.ns == XML_NS {
+        } else if name.ns == XML_NS && scope.lookup("xml") == Some(XML_NS) {
             vec!["xml".to_string()]
         } else {
             scope.prefixes_for(&name.ns, !is_attr)
@@ -183,8 +186,6 @@ impl<'a> Walk<'a> {
         let resolve = |prefix: &str| -> String {
             if prefix.is_empty() {
                 if is_attr { String::new() } else { scope.lookup("").unwrap_or("").to_string() }
-            } else if prefix == "xml" {
-                XML_NS.to_string()
             } else {
                 scope.lookup(prefix).unwrap_or("\u{0}unbound").to_string()
             }
@@ -331,6 +332,38 @@ impl<'a> Walk<'a> {
         for u in &unbound_inside {
             if !un_real.contains(u) {
                 self.bad("unresolved_namespaces", "misses-namespace-without-any-inner-binding", "subtree", a, format!("does not report {:?} although no declaration inside the subtree binds it (reported {:?})", u, un));
+                return;
+            }
+        }
+        // exactly: the namespaces of names that the declarations INSIDE the subtree (nearest wins, xmlns="" undeclares)
+        // leave without a usable prefix - any prefix for an element name, a non-empty one for an attribute name
+        {
+            let mut exact: BTreeSet<String> = BTreeSet::new();
+            fn rec2(n: &ANode, sc: &mut Scope, out: &mut BTreeSet<String>) {
+                if n.kind == AKind::Elem {
+                    let k = sc.push_all(&n.decls);
+                    if !n.name.ns.is_empty() && n.name.ns != XML_NS && sc.prefixes_for(&n.name.ns, true).is_empty() {
+                        out.insert(n.name.ns.clone());
+                    }
+                    for (q, _) in &n.attrs {
+                        if !q.ns.is_empty() && q.ns != XML_NS && sc.prefixes_for(&q.ns, false).is_empty() {
+                            out.insert(q.ns.clone());
+                        }
+                    }
+                    for c in &n.children {
+                        rec2(c, sc, out);
+                    }
+                    sc.pop_n(k);
+                } else {
+                    for c in &n.children {
+                        rec2(c, sc, out);
+                    }
+                }
+            }
+            rec2(a, &mut Scope::new(), &mut exact);
+            if exact != un_real {
+                let cause = if exact.difference(&un_real).next().is_some() { "misses-a-namespace-left-unbound-inside" } else { "reports-a-namespace-bound-inside" };
+                self.bad("unresolved_namespaces", cause, "subtree", a, format!("reports {:?}; the declarations inside the subtree leave exactly {:?} without a usable prefix", un_real, exact));
                 return;
             }
         }
